@@ -356,6 +356,18 @@ pub fn run_c09(run: &mut Run) {
             }
         });
     }
+    // IPMB-shaped frames (header and data checksums of the neighbouring protocol), decoded by a fresh
+    // context and by the device the frame names
+    run.sweep_chunked("IPMB-shaped frames: byte0 x 3 command bytes x 8 fourth bytes x lengths 8..=32 x {data checksum, PEC}, on a fresh context and on the addressed device", IPMB_LIKE_N, |acc, lo, hi| {
+        let mut buf = Vec::with_capacity(40);
+        for i in lo..hi {
+            ipmb_like(i, &mut buf);
+            let own = Owned::new(&Cfg::simple(buf[0] >> 1));
+            let other = Owned::new(&Cfg::simple(0x23));
+            let ctxs = vec![other.ctx(), own.ctx()];
+            c09_one(acc, &ctxs, &buf, 3, i);
+        }
+    });
     // run-length and cache-thrashing histories: the decode outcome of the last packet must be the
     // reference's whatever came before
     runseq_for(run, "C09", &|d: &Diff, h: &[Event]| d.aspect == Aspect::Result && matches!(h.last(), Some(Event::Decode(_)) | Some(Event::Process(_))));
@@ -692,6 +704,15 @@ pub fn run_c10(run: &mut Run) {
             }
         });
     }
+    run.sweep_chunked("IPMB-shaped frames through probe, decode and process on the addressed device", IPMB_LIKE_N, |acc, lo, hi| {
+        let mut buf = Vec::with_capacity(40);
+        for i in lo..hi {
+            ipmb_like(i, &mut buf);
+            let spec = CtxSpec::fresh(Cfg::simple(buf[0] >> 1));
+            let owned = Owned::new(&spec.cfg);
+            c10_one(acc, &spec, &owned, &buf, false, 3, i);
+        }
+    });
     // cross-kind histories: no call of any kind may unwind after any sequence of the others
     stateless(run, "C10", "MIXSEQ (every kind of call on one context)", &mixed_machine(), if thorough { 5 } else { 4 }, &|d: &Diff, _h: &[Event]| d.aspect == Aspect::Panic);
     runseq_for(run, "C10", &|d: &Diff, _h: &[Event]| d.aspect == Aspect::Panic);
